@@ -144,7 +144,8 @@ def run(ctx):
     sysm = systematic() + [r for _, r in pairwise(only={"enum"})]
     n = 20 if ctx.tier == "quick" else 300
     cases = build_cases(ctx, len(sysm) + n, ["enum"], CLASSES | {"type"}, "c08x", extra_schemas=sysm, docs_per=2 if ctx.tier == "quick" else 3)
-    ne = nullable_enum_cases() + fractional_integer_enum_cases()
+    from vlib.lookalike import lookalike_cases
+    ne = nullable_enum_cases() + fractional_integer_enum_cases() + lookalike_cases("c08", "enum")
     run_cases(ctx, cases + ne, "c08")
     nne = 0
     for c in ne:
